@@ -15,6 +15,7 @@ from vf.sim.install import Installed
 from vf.sim.kernel import Kernel, make_chooser, Kill
 
 ADDR = ('sim-host', 2000)
+ADDR2 = ('sim-host', 2001)
 
 
 class ClientFailure(Exception):
@@ -178,6 +179,51 @@ def make_settings(scenario):
     return out
 
 
+def _spawn_table(kernel, net, server, scenario, addr, res, clients, fault, clients_required, tag):
+    """Spawns the table manager of one table and its four clients as managed tasks; returns the main task."""
+    def server_main():
+        try:
+            with server:
+                server.run()
+        except Kill:
+            raise
+        except BaseException as e:  # noqa: the table manager abandoned the session
+            res.server_exc = e
+            res.server_tb = traceback.format_exc()
+
+    main_task = kernel.spawn(server_main, 'main' + tag, required=True)
+    for s_ in range(4):
+        res.client_state[s_]['linger_wait'] = lambda: kernel.point('linger', None, pred=lambda: main_task.state == 'done', timeout_ok=True)
+    teams = scenario['teams']
+    for seat in scenario.get('arrival', [0, 1, 2, 3]):
+        team = teams[seat % 2]
+        if clients is not None:
+            fn = clients[seat]
+        else:
+            def fn(seat=seat, team=team):
+                ref_client(seat, team, scenario, net, res.client_logs[seat],
+                           fault=fault if (fault and fault.get('seat') == seat) else None,
+                           state=res.client_state[seat], addr=addr)
+
+        last = seat == list(scenario.get('arrival', [0, 1, 2, 3]))[-1]
+
+        def wrapped(seat=seat, fn=fn, last=last):
+            try:
+                # a client is started once the table manager is listening (a refused connection attempt
+                # before that is not part of any property)
+                kernel.point('await-listener', None,
+                             pred=lambda: net.listeners.get(addr) is not None and net.listeners[addr].listening)
+                if last and scenario.get('intruders'):
+                    kernel.point('await-intruders', None, pred=lambda: res.intruders_done())
+                fn()
+            except Kill:
+                raise
+            except BaseException as e:  # noqa
+                res.client_exc[seat] = e
+        kernel.spawn(wrapped, f'client{tag}-{A.SEATS[seat]}', required=clients_required)
+    return main_task
+
+
 def run_session(scenario, schedule, clients=None, fault=None, kernel_hook=None, max_steps=400000, keep_log=False,
                 clients_required=True, trace=None, server_obj=None):
     """Runs one simulated session. clients: optional list of 4 callables (seat -> task function) overriding the
@@ -214,46 +260,20 @@ def run_session(scenario, schedule, clients=None, fault=None, kernel_hook=None, 
             server.board_settings, server.output_file_path = make_settings(scenario), pathlib.Path(out_path)
         res.server = server
 
-        def server_main():
-            try:
-                with server:
-                    server.run()
-            except Kill:
-                raise
-            except BaseException as e:  # noqa: the table manager abandoned the session
-                res.server_exc = e
-                res.server_tb = traceback.format_exc()
-
-        main_task = kernel.spawn(server_main, 'main', required=True)
-        for s_ in range(4):
-            res.client_state[s_]['linger_wait'] = lambda: kernel.point('linger', None, pred=lambda: main_task.state == 'done', timeout_ok=True)
-        teams = scenario['teams']
-        for seat in scenario.get('arrival', [0, 1, 2, 3]):
-            team = teams[seat % 2]
-            if clients is not None:
-                fn = clients[seat]
-            else:
-                def fn(seat=seat, team=team):
-                    ref_client(seat, team, scenario, net, res.client_logs[seat],
-                               fault=fault if (fault and fault.get('seat') == seat) else None,
-                               state=res.client_state[seat])
-
-            last = seat == list(scenario.get('arrival', [0, 1, 2, 3]))[-1]
-
-            def wrapped(seat=seat, fn=fn, last=last):
-                try:
-                    # a client is started once the table manager is listening (a refused connection attempt
-                    # before that is not part of any property)
-                    kernel.point('await-listener', None,
-                                 pred=lambda: net.listeners.get(ADDR) is not None and net.listeners[ADDR].listening)
-                    if last and scenario.get('intruders'):
-                        kernel.point('await-intruders', None, pred=lambda: res.intruders_done())
-                    fn()
-                except Kill:
-                    raise
-                except BaseException as e:  # noqa
-                    res.client_exc[seat] = e
-            kernel.spawn(wrapped, f'client-{A.SEATS[seat]}', required=clients_required)
+        main_task = _spawn_table(kernel, net, server, scenario, ADDR, res, clients, fault, clients_required, '')
+        if scenario.get('table2') is not None:
+            # a second table in the same process (another Server object on another port, its own four clients and output
+            # file), running concurrently with the first under the same schedule: every table is a session of its own
+            sc2 = scenario['table2']
+            fd2, out2 = tempfile.mkstemp(suffix='.json', dir=workdir)
+            os.close(fd2)
+            t2 = res.table2 = Result()
+            t2.out_path = out2
+            t2.client_logs = {s: [] for s in range(4)}
+            t2.client_exc, t2.client_state = {}, {s: {} for s in range(4)}
+            t2.server_exc = t2.server_tb = None
+            server2 = Server(ip_address=ADDR2[0], port=ADDR2[1], output_file_path=pathlib.Path(out2), board_settings=make_settings(sc2))
+            _spawn_table(kernel, net, server2, sc2, ADDR2, t2, None, None, clients_required, '2')
         # inadmissible connection attempts during admission (wrong version / seat already taken / other team than the
         # seated partner): each connects once the seat it refers to is seated, and the last conforming client waits
         # until all of them have their answer - so the accept loop is still running for every one of them
@@ -302,4 +322,16 @@ def run_session(scenario, schedule, clients=None, fault=None, kernel_hook=None, 
         os.unlink(out_path)
     except OSError:
         pass
+    t2 = getattr(res, 'table2', None)
+    if t2 is not None:
+        t2.outcome, t2.net, t2.kernel = res.outcome, net, kernel
+        try:
+            with open(t2.out_path, 'r') as f:
+                t2.output_text = f.read()
+        except OSError:
+            t2.output_text = None
+        try:
+            os.unlink(t2.out_path)
+        except OSError:
+            pass
     return res
